@@ -523,7 +523,13 @@ def r48(ctx, sn, result=None, KEY=None):
             ok = all(c.get(('moved', 'Pawn')) is True and c.get('promotion') is not True and c.get('src-double') is True and c.get('dst-double') is True
                      for c in conds)
             objside = bb(mk_field(e['obj'], 'side_to_move', an), an)
-            if a == DST and ok and objside == STM:
+            extra = [c['other'] for c in conds if c.get('other')]
+            if a == DST and ok and objside == STM and extra:
+                # the four conditions are necessary AND sufficient: any further condition loses en-passant squares
+                problems.append(('C02.R6', 'set_ep-extra-guard', 'set_ep(dest) is additionally guarded by %s: a double pawn step that meets the four '
+                                 'conditions but not this one leaves no en-passant square although the pawn may be capturable' % (
+                                     [x for x, _ in extra[0]][:2]), line))
+            elif a == DST and ok and objside == STM:
                 seen['set_ep'] = True
             else:
                 problems.append(('C02.R6', 'set_ep-guard', 'set_ep(%s) is not guarded by (pawn, no promotion, source on a double-move source rank, destination '
